@@ -86,6 +86,21 @@ func (c *ctx5) expr(e ast.Expr) string {
 			return "(.shift " + a + " " + b + ")"
 		case token.QUO, token.REM:
 			return "(.dm " + a + " " + b + ")"
+		case token.EQL, token.NEQ, token.LSS, token.LEQ, token.GTR, token.GEQ:
+			// comparing arrays, structs, strings or interfaces compiles to a chunk-wise comparison that stops at
+			// the first difference (runtime.memequal / unrolled &&): control flow depends on both operands
+			if tv, ok := c.p.info.Types[x.X]; ok && tv.Type != nil {
+				composite := false
+				switch u := tv.Type.Underlying().(type) {
+				case *types.Array, *types.Struct, *types.Interface:
+					composite = true
+				case *types.Basic:
+					composite = u.Info()&types.IsString != 0
+				}
+				if composite {
+					return "(.sc (.bin " + a + " " + b + ") .pub)"
+				}
+			}
 		}
 		return "(.bin " + a + " " + b + ")"
 	case *ast.IndexExpr:
